@@ -367,6 +367,8 @@ GLOBAL_RULES = [
     # R7b: fold back compiler-expanded vec!
     ('R7b', r'::alloc::vec::from_elem\(([^,()]+), ([^()]+(?:\([^()]*\))?[^()]*)\)', r'vio::vec_from_elem(\1, \2)'),
     ('R7b', r'<\[_\]>::into_vec\(::alloc::boxed::box_new\(\[([^\[\]]*)\]\)\)', r'vec![\1]'),
+    # R7c: an expanded `format!(..)` used as an error message: the text of a message is irrelevant to every contract
+    ('R7c', r'(?:&)?::alloc::__export::must_use\(\{ ::alloc::fmt::format\(format_args!\((?:[^()]|\((?:[^()]|\([^()]*\))*\))*\)\) \}\)', '"(formatted message)"'),
 ]
 
 
